@@ -971,9 +971,45 @@ func outMutants(g *gen, base outG, big bool) []named[outG] {
 
 // ---------------------------------------------------------------- running the real code
 
+// the last few values the decoders returned, with the values they have to equal: a decoded value belongs to the
+// caller (Outcome keeps every observation's proposals while it decodes the next ones), so it must still equal its
+// original after later decodes
+type keptDecode struct {
+	obsV, obsD *ocr2keepers.AutomationObservation
+	outV, outD *ocr2keepers.AutomationOutcome
+}
+
+var kept []keptDecode
+
+func keptStillEqual() bool {
+	for _, k := range kept {
+		if k.obsV != nil && !eqObs(*k.obsV, *k.obsD) {
+			return false
+		}
+		if k.outV != nil && !eqOut(*k.outV, *k.outD) {
+			return false
+		}
+	}
+	return true
+}
+
+func keep(k keptDecode) {
+	kept = append(kept, k)
+	if len(kept) > 6 {
+		kept = kept[1:]
+	}
+}
+
 func runCase(c *c15Case) (encoded []byte) {
 	wg := wgFor(c.WidPrefix)
 	c.Observed = observedG{}
+	defer func() {
+		if c.Observed.Code == 0 && c.Observed.Same && !keptStillEqual() {
+			c.Observed.Same = false
+			c.Observed.ErrText = "a value returned by an earlier decode changed when this message was decoded"
+			kept = nil
+		}
+	}()
 	defer func() {
 		if r := recover(); r != nil {
 			c.Observed.Code = 98
@@ -998,6 +1034,9 @@ func runCase(c *c15Case) (encoded []byte) {
 			c.Observed.ErrText = err.Error()
 		} else {
 			c.Observed.Same = eqObs(v, d)
+			if c.Observed.Same {
+				keep(keptDecode{obsV: &v, obsD: &d})
+			}
 		}
 	} else {
 		v := c.VOut.toGo()
@@ -1017,6 +1056,9 @@ func runCase(c *c15Case) (encoded []byte) {
 			c.Observed.ErrText = err.Error()
 		} else {
 			c.Observed.Same = eqOut(v, d)
+			if c.Observed.Same {
+				keep(keptDecode{outV: &v, outD: &d})
+			}
 		}
 	}
 	if c.Level == "wire" {
@@ -1556,6 +1598,24 @@ func reorderedCases(r *Rng) []c15Case {
 				cs = append(cs, c15Case{Family: fam, Kind: "out", Level: "val", VOut: &u, RawHex: hex.EncodeToString([]byte(rawOut(u, order, trim)))})
 			}
 		}
+	}
+	// array elements with every member absent, decoded right after valid messages: an absent member is the zero value
+	// whatever was decoded before (the decoder is a function of the bytes alone); a proposal with an empty work id is
+	// rejected
+	zero := x32([32]byte{})
+	for rep := 0; rep < 4; rep++ {
+		zp := propG{Upk: zero, Trig: trigG{Hash: zero}}
+		o := obsG{Props: []propG{zp}, Hist: []bkG{{Hash: zero}}}
+		cs = append(cs, c15Case{Family: "absent-members-after-valid-decodes", Kind: "obs", Level: "val", Mut: "workid", VObs: &o,
+			RawHex: hex.EncodeToString([]byte(`{"Performable":[],"UpkeepProposals":[{}],"BlockHistory":[{}]}`))})
+		u := outG{Surfaced: [][]propG{{zp}}}
+		cs = append(cs, c15Case{Family: "absent-members-after-valid-decodes", Kind: "out", Level: "val", Mut: "workid", VOut: &u,
+			RawHex: hex.EncodeToString([]byte(`{"AgreedPerformables":[],"SurfacedProposals":[[{}]]}`))})
+		o2 := obsG{Hist: []bkG{{Num: 7, Hash: zero}, {Hash: zero}}}
+		cs = append(cs, c15Case{Family: "absent-members-after-valid-decodes", Kind: "obs", Level: "val", VObs: &o2,
+			RawHex: hex.EncodeToString([]byte(`{"BlockHistory":[{"Number":7},{}]}`))})
+		ov := obsG{Props: mk(32), Hist: []bkG{{Num: 9, Hash: g.hash("bh")}, {Num: 8, Hash: g.hash("bh")}}}
+		cs = append(cs, c15Case{Family: "absent-members-after-valid-decodes", Kind: "obs", Level: "val", VObs: &ov, RawHex: hex.EncodeToString([]byte(rawObs(ov, 0, false)))})
 	}
 	return cs
 }
